@@ -1,8 +1,8 @@
 SPECIFICATION Spec
-CONSTANT JobDefs <- JD_2p2
-CONSTANT MaxEvents = 7
+CONSTANT JobDefs <- JD_2p1
+CONSTANT MaxEvents = 6
 CONSTANT MaxBuiltins = 1
-CONSTANT Legacy <- NoLegacy
+CONSTANT Legacy <- NoDrain
 VIEW view
 INVARIANT TableMatchesLive
 INVARIANT StatusMatches
